@@ -1,5 +1,6 @@
 """C05 — history is hash-chained and tamper-evident."""
 from ..prims import *
+from ..guards import check_strength
 from ..guards import find_guard
 from ..baselines import baseline
 
@@ -129,6 +130,8 @@ def run(ctx):
         seen[(path, variant)] = n + 1
         key = "guard:%s:%s:%s~%s" % (f.name, variant, "+".join(sorted(ta)), "+".join(sorted(tb)))
         rep.check(st == "ok", "C05.R3", key, detail, "%s — %s" % (st, detail), site=f.loc())
+        if st == "ok":
+            check_strength(rep, "C05.R3", key, "C05", prog, f, enum, variant, ta, tb)
     # the verification functions are actually on the entry paths
     must_reach = {
         "replay": [PS + "validate_replay_base", PS + "restore_replay_base", PS + "advance_replay_state", PS + "replay_artifacts_for_entry"],
